@@ -319,6 +319,8 @@ def real_behaviour(b, rng, n_objects=12, n_steps=60):
                     d.call(o, 'to_graph', **kwg)
                 d.call(o, 'rates', 2)
                 d.call(o, 'to_graph')
+            for args in ((), (3.3,), (), (5.1,), (1.0,), ()):
+                d.call(o, 'collective', *args)
     for _ in range(n_steps):
         live = list(d.objs)
         r = rng.random()
@@ -356,7 +358,10 @@ def real_behaviour(b, rng, n_objects=12, n_steps=60):
                     elif c == 2:
                         d.call(o, 'jump_diffusivity', int(rng.integers(1, 4)))
                     elif c == 3:
-                        d.call(o, 'collective', float(rng.choice([1.0, 3.3, 5.1])))
+                        if rng.random() < 0.3:
+                            d.call(o, 'collective')                 # defaults
+                        else:
+                            d.call(o, 'collective', float(rng.choice([1.0, 3.3, 5.1])))
                         if rng.random() < 0.5 and len(d.objs) < n_objects + 8:
                             # the user keeps a Collective: an owner of memoised methods itself (weak back-reference to its Jumps)
                             # built directly (a value returned by the memoised Jumps.collective is legitimately held by the cache)
